@@ -484,16 +484,7 @@ func verifCount(cs ...bool) int {
 	return n
 }
 
-func verifTimerArmed(t *time.Timer) bool {
-	if t == nil {
-		return false
-	}
-	if t.Stop() {
-		t.Reset(time.Hour)
-		return true
-	}
-	return false
-}
+func verifTimerArmed(t *time.Timer) bool { return t != nil } // a fired timer cannot be told from an armed one natively
 func verifTimerWithin(t *time.Timer, exp uint32) bool { return verifTimerArmed(t) }
 func verifCommitCount(db *sql.DB) int                 { return -1 }
 
